@@ -191,22 +191,51 @@ func sleepUntil(start time.Time, t time.Duration) {
 
 var stackBuf = make([]byte, 1<<20)
 
-// bubbleGoroutines counts the goroutines of the calling goroutine's synctest bubble,
-// not counting the caller and the goroutine waiting in synctest.Run.
-func bubbleGoroutines() int64 {
+// goroutines left behind for ever by earlier cases (only when the code under test leaks):
+// the runtime's dump attributes them to whatever bubble is running, so they are remembered
+// by id and left out of later counts.
+var leaked = map[string]bool{}
+
+func goroutineHeaders() []string {
 	n := runtime.Stack(stackBuf, true)
-	for n == len(stackBuf) && len(stackBuf) < 1<<28 { // goroutines left behind by earlier cases make the dump long
+	for n == len(stackBuf) && len(stackBuf) < 1<<28 {
 		stackBuf = make([]byte, 2*len(stackBuf))
 		n = runtime.Stack(stackBuf, true)
 	}
+	var hs []string
+	for _, line := range strings.Split(string(stackBuf[:n]), "\n") {
+		if strings.HasPrefix(line, "goroutine ") && strings.HasSuffix(line, "]:") {
+			hs = append(hs, line)
+		}
+	}
+	return hs
+}
+
+func goid(header string) string {
+	f := strings.Fields(header)
+	if len(f) < 2 {
+		return ""
+	}
+	return f[1]
+}
+
+// called outside any bubble: every goroutine still marked as belonging to one is stuck for ever
+func recordLeaked() {
+	for _, h := range goroutineHeaders() {
+		if strings.Contains(h, "synctest group ") {
+			leaked[goid(h)] = true
+		}
+	}
+}
+
+// bubbleGoroutines counts the goroutines of the calling goroutine's synctest bubble,
+// not counting the caller and the goroutine waiting in synctest.Run.
+func bubbleGoroutines() int64 {
 	group := ""
 	cnt := 0
-	for _, line := range strings.Split(string(stackBuf[:n]), "\n") {
-		if !strings.HasPrefix(line, "goroutine ") || !strings.HasSuffix(line, "]:") {
-			continue
-		}
+	for _, line := range goroutineHeaders() {
 		i := strings.Index(line, "synctest group ")
-		if i < 0 {
+		if i < 0 || leaked[goid(line)] {
 			continue
 		}
 		g := line[i : len(line)-2]
@@ -246,6 +275,9 @@ func bubble(f func()) (deadlock, hung bool) {
 	}()
 	select {
 	case dl := <-done:
+		if dl {
+			recordLeaked()
+		}
 		return dl, false
 	case <-time.After(hangLimit):
 		return false, true
